@@ -81,11 +81,14 @@ JModel(T) == ("MODEL" \in Props /\ Untagged(T) /\ T.style = "plain" /\ T.status 
   /\ (p.ok = Ok(T) \/ PrintT(<<"M", T.tid, "pipeline_status", Cls(T)>>))
   /\ (~(p.ok /\ Ok(T)) \/ p.cuts = T.stats.cuts \/ PrintT(<<"M", T.tid, "pipeline_cuts", Cls(T)>>))
   /\ (~(p.ok /\ Ok(T)) \/ RowBag(p.fused) = RowBag(T.out) \/ PrintT(<<"M", T.tid, "pipeline_fused_rows", Cls(T)>>))
-J11(T) == ("C11" \in Props /\ Ok(T)) =>
+\* through the command line tool: the haplotig-removal count of the info yaml equals the number of haplotig scaffolds written
+J11cli(T) == ("C11" \in Props /\ Ok(T) /\ T.style = "cli") =>
+  (T.yaml_haplotig_removals = T.haplotig_scaffolds_written \/ Say(T, "C11.haplotig_removals", T.cls))
+J11(T) == ("C11" \in Props /\ Ok(T) /\ T.style # "cli") =>
   /\ (T.stats.cuts = CutsDef(T) \/ Say(T, "C11.cuts", Cls(T)))
   /\ (T.stats.breaks = BreaksDef(T) \/ Say(T, "C11.breaks", Cls(T)))
   /\ (T.stats.joins = JoinsDef(T) \/ Say(T, "C11.joins", Cls(T)))
-Judge(T) == Count(1, 1) /\ J01(T) /\ J02(T) /\ J07(T) /\ J08(T) /\ J08p(T) /\ J09(T) /\ J10(T) /\ J11(T) /\ JModel(T) /\ JNaming(T)
+Judge(T) == Count(1, 1) /\ J01(T) /\ J02(T) /\ J07(T) /\ J08(T) /\ J08p(T) /\ J09(T) /\ J10(T) /\ J11(T) /\ J11cli(T) /\ JModel(T) /\ JNaming(T)
 TInit == tn = 0
 TNext == tn < Len(Traces) /\ tn' = tn + 1 /\ Judge(Traces[tn + 1]) = TRUE
 TraceSpec == TInit /\ [][TNext]_tn
